@@ -193,9 +193,24 @@ func instrRound2(pts pointSet, r *rand.Rand, tier string) []planT {
 				continue
 			}
 			h := "hold=" + p + "~2@" + engDefer + ";" + p + "~3@" + engDefer
+			if engMain := pts.pick("Engine.Run.", ".select"); engMain != "" {
+				// … and the main loop reads the first result only when all three goroutines have got there
+				h += ";" + engMain + "@" + p + "~3"
+			}
 			add("none", h, 4, with(func(p *pspec) { p.fail = "warmup" }), with(func(p *pspec) { p.fail = "newgun@0" }),
 				with(func(p *pspec) { p.fail = "sched@1"; p.per = 0 }))
 		}
+	}
+	// … the main loop of Engine.Run reads a pool's failure when the caller has already cancelled: cancelled before the
+	// start (the pool goroutines may still get their failure into the channel), and cancelled by another pool's first
+	// shot while the failure of the first pool sits in the channel
+	if engMain := pts.pick("Engine.Run.", ".select"); engMain != "" && engSend != "" {
+		fails := []pspec{with(func(p *pspec) { p.fail = "warmup" }), with(func(p *pspec) { p.fail = "newgun@0" }),
+			with(func(p *pspec) { p.fail = "sched@1"; p.per = 0 })}
+		add("pre", "hold="+engMain+"@"+engSend+"~3", 6, fails...)
+		add("pre", "hold="+engMain+"@"+engSend, 6, fails[0])
+		add("shot1@p1", "hold="+engMain+"@m.shot", 6, fails[0], with(func(p *pspec) { p.ammo = -1; p.shots = 50 }))
+		add("shot1@p1", "hold="+engMain+"@m.shot", 6, fails[2], with(func(p *pspec) { p.ammo = -1; p.shots = 50 }))
 	}
 	if h := hold(engSend, engSend+"~2"); h != "" && engSend != "" {
 		add("none", h, 4, planA, with(func(p *pspec) { p.prov = "late.err" }))
